@@ -237,7 +237,7 @@ func (w *verifRPWorld) trackedFor(epoch uint64) uint64 {
 }
 
 // VerifRPPayments: one payment transaction with n relays of the project's consumer to the provider.  Each relay
-// names epoch 20 or 40 and session 1 or 2 (so relays may repeat a session, inside the transaction or against a
+// names block 20, 40 or 45 (epochs of 20 blocks: 45 lies inside epoch 40) and session 1 or 2 (so relays may repeat a session, inside the transaction or against a
 // session paid earlier) and an arbitrary CU sum.  Earlier payments of the epoch are in the store (prior tracked CU).
 func VerifRPPayments() {
 	n := verif_param("relays", 2)
@@ -258,18 +258,25 @@ func VerifRPPayments() {
 		w.k.SetUniqueEpochSession(w.ctx, 40, verifRPAddr(1), "proj", "LAV1", 2)
 	}
 	msg := &types.MsgRelayPayment{Creator: verifRPAddr(1)}
-	epochs := make([]uint64, n)
+	epochs := make([]uint64, n) // epoch start of the block the relay names
+	blocks := make([]uint64, n) // the block the relay names: an epoch start (20, 40) or a block inside epoch 40 (45)
 	sessions := make([]uint64, n)
 	cus := make([]uint64, n)
+	atEpochStarts := true
 	for i := 0; i < n; i++ {
-		epochs[i] = uint64(20 * verif_nondet_range("relay.epoch", 1, 2))
+		blocks[i] = []uint64{20, 40, 45}[verif_nondet_range("relay.block", 0, 2)]
+		epochs[i] = blocks[i] - blocks[i]%verifRPEpochBlocks
+		if blocks[i] != epochs[i] {
+			atEpochStarts = false
+		}
 		sessions[i] = uint64(verif_nondet_range("relay.session", 1, 2))
 		cus[i] = verif_nondet_u64("relay.cuSum")
 		verif_assume(cus[i] > 0 && cus[i] < 1<<40)
-		r := verifRPRelay(int64(epochs[i]), sessions[i], cus[i])
+		r := verifRPRelay(int64(blocks[i]), sessions[i], cus[i])
 		verifRPSign(r, 2)
 		msg.Relays = append(msg.Relays, r)
 	}
+	w.setPairing("LAV1", 45, allowed, true)
 
 	_, err := w.srv.RelayPayment(sdk.WrapSDKContext(w.ctx), msg)
 
@@ -303,7 +310,7 @@ func VerifRPPayments() {
 	// C03: a session is credited at most once (also inside a failing transaction, before the SDK rolls it back)
 	verif_assert("no-more-credits-than-fresh-distinct-sessions", credits <= nFresh)
 	if err != nil {
-		verif_assert("transaction-with-only-fresh-sessions-is-accepted", !allFresh)
+		verif_assert("transaction-with-only-fresh-sessions-at-epoch-starts-is-accepted", !allFresh || !atEpochStarts)
 		verif_reach("rejected")
 		return
 	}
@@ -315,7 +322,7 @@ func VerifRPPayments() {
 		// C04: credited CU never above the signed CU of that relay; C17: project and subscription charged the signed CU once
 		verif_assert("credited-at-most-signed-cu", t.cu <= cus[i])
 		verif_assert("credit-goes-to-the-subscription-provider-and-chain", t.sub == verifRPAddr(3) && t.provider == verifRPAddr(1) && t.chain == "LAV1" && t.block == 10)
-		verif_assert("project-charged-signed-cu-once", w.projects.charges[i].target == "proj" && w.projects.charges[i].cu == cus[i] && w.projects.charges[i].block == epochs[i])
+		verif_assert("project-charged-signed-cu-once", w.projects.charges[i].target == "proj" && w.projects.charges[i].cu == cus[i] && w.projects.charges[i].block == blocks[i])
 		verif_assert("subscription-charged-signed-cu-once", w.subs.charges[i].target == verifRPAddr(3) && w.subs.charges[i].cu == cus[i])
 		if epochs[i] == 20 {
 			credited20 += t.cu
